@@ -37,6 +37,12 @@ theorem decode_fresh (d : MsgDef) (h : Heap) (inp : Nat) (m : MsgValH) (h' : Hea
   rw [hd] at this
   exact this.2.2 x hx
 
+/-- no two elements of the decoded message share a region: the slices reachable from it are pairwise distinct regions (each was
+allocated by its own `make`, and an element that is decoded twice leaves its first region unreferenced) -/
+theorem decode_elements_disjoint (d : MsgDef) (h : Heap) (inp : Nat) (m : MsgValH) (h' : Heap)
+    (hd : decodeH d h inp = .ok (m, h')) : m.refs.Nodup :=
+  decodeH_nodup d h inp m h' hd
+
 /-- the decoded message, read through the heap, is what the heap-free decoder of C01–C04 returns on the input contents -/
 theorem decode_erasure (d : MsgDef) (h : Heap) (inp : Nat) (m : MsgValH) (h' : Heap)
     (hd : decodeH d h inp = .ok (m, h')) : decode d (h.getD inp []) = .ok (m.erase h') := by
